@@ -142,7 +142,7 @@ func c12MoreDescriptors(rng *Rng, thorough bool) []string {
 		}
 		ds = append(ds, fmt.Sprintf("P#%d|%s", shared, c13Desc(le, ops)))
 	}
-	nP := 12
+	nP := 40
 	if thorough {
 		nP = 300
 	}
@@ -161,7 +161,7 @@ func c12MoreDescriptors(rng *Rng, thorough bool) []string {
 	ds = append(ds, "N#8,64,300|get getbig post:200 postbig:150 obs notify:2 obsbig notify:2 obscancel ping hang set swap do burst:4 nf put:130 delete",
 		"N#2,2,700|getbig postbig:500 obsbig notify:3 obscancel obscancel hang getbig",
 		"N#0,0,200|get getbig post:200 obs notify:1 set swap")
-	nN, nS, nQ, nR := 6, 6, 12, 4
+	nN, nS, nQ, nR := 20, 16, 24, 10
 	if thorough {
 		nN, nS, nQ, nR = 150, 100, 200, 60
 	}
